@@ -88,6 +88,13 @@ func main() {
 		os.Exit(runReplay(os.Args[2]))
 	case "selftest":
 		os.Exit(runSelftest())
+	case "gen":
+		// debugging aid: print the case a check generates for a run index
+		if len(os.Args) < 4 {
+			usage()
+		}
+		run, _ := strconv.ParseInt(os.Args[3], 10, 64)
+		fmt.Println(checks.GenCase(os.Args[2], envInt("VERIF_SEED", 1), run))
 	default:
 		usage()
 	}
